@@ -19,9 +19,21 @@ import subprocess
 
 from lib import vlib
 from props import c07_gen as G
+from props import c07_regen
 
 ID = "C07"
-FFI_OUTPUT_SIZE = 1200          # FFI_COMPLEXITY_OUTPUT, ffi_obj.c:26
+FFI_OUTPUT_SIZE = 1200          # FFI_COMPLEXITY_OUTPUT, ffi_obj.c:26 (pinned: C07_tables_are_the_sources)
+
+
+def regen(ctx):
+    """coq/C07/Gen.v from parse_c_type.c / parse_c_type.h / cffi_opcode.py / realize_c_type.c / ffi_obj.c /
+    commontypes.c (fail closed, see c07_regen.py)"""
+    c07_regen.regen(ctx)
+
+
+def ffi_output_size():
+    """FFI_COMPLEXITY_OUTPUT as read from ffi_obj.c by regen() (the harness then uses the tree's own value)"""
+    return c07_regen.complexity_output(FFI_OUTPUT_SIZE)
 
 
 # ------------------------------------------------------------------------------------------ generation
@@ -33,7 +45,7 @@ def generate(ctx):
     per = ctx.n(250, 750)
     for ci in range(nctx):
         dctx = G.gen_ctx(rng)
-        osz = FFI_OUTPUT_SIZE if ci % 5 else rng.choice([0, 1, 2, 3, 5, 8, 13, 30])
+        osz = ffi_output_size() if ci % 5 else rng.choice([0, 1, 2, 3, 5, 8, 13, 30])
         for i in range(per):
             t = G.gen_type(rng, dctx, rng.choice([0, 1, 1, 2, 2, 3]))
             toks = G.tokens(t)
@@ -640,7 +652,7 @@ def evaluate(ctx, cases):
             prelude.append("Definition genv2 := (g_c_0, g_py_0).")
         else:
             prelude.append("Definition genv2 := (mkGenv [] [] [] [], mkGenv [] [] [] []).")
-        prelude.append(COQ_DRIVER % FFI_OUTPUT_SIZE)
+        prelude.append(COQ_DRIVER % ffi_output_size())
         lits = []
         for i in g["idx"]:
             it = cases[i]["item"]
@@ -767,7 +779,7 @@ def replay_witnesses(ctx):
             continue
         rr = r["results"][0]
         same = agree(rr["py"], rr["c"])
-        case = dict(ctx=dict(structs=[], enums=[], consts=[], typedefs=[]), osz=FFI_OUTPUT_SIZE,
+        case = dict(ctx=dict(structs=[], enums=[], consts=[], typedefs=[]), osz=ffi_output_size(),
                     item=dict(kind="mut", toks=None, s=k["witness"]["s"]), witness_of=k["key"],
                     cdef=k["witness"].get("cdef", ""))
         if k.get("status") == "open":
@@ -795,7 +807,9 @@ def run(ctx):
                        "one parser; distinct by token sequence.")
     ctx.assumptions += [
         "hand models C07/Model.v (parse_c_type.c), C07/Realize.v (realize_c_type.c + type constructors), "
-        "C07/PyModel.v (cparser.py post-processing); tied to the code by this run's differential tests",
+        "C07/PyModel.v (cparser.py post-processing); control structure tied to the code by this run's differential "
+        "tests, constant tables (keywords, opcode numbers, recursion limit, FFI_COMPLEXITY_OUTPUT, commontypes rows) "
+        "regenerated into C07/Gen.v and pinned by C07_tables_are_the_sources",
         "pycparser and cparser._preprocess are not modelled: their output on rendered syntax trees is what "
         "correspondence (ii) samples",
         "x86-64 Linux: primitive sizes, non-Windows commontypes.c table, __stdcall ignored by the backend",
@@ -816,10 +830,25 @@ MANIFEST = dict(
          "+ pointers/qualifiers/nested grouping parentheses/arrays with dec/oct/hex lengths or lengths named by an "
          "integer constant of the context/pointers to functions with the parameter lists () and (void), with "
          "__cdecl/__stdcall, any white space, any context; C07_agree_names_partial: the same over base types named "
-         "through the context (typedef names, standard *_t names, struct/union/enum tags); for ALL strings: no access to the output buffer outside its written part (C07_no_fault) and the "
-         "scanning primitives stop at the terminator. The full statement is kept visible and refuted by eight "
-         "_refuted witnesses (known findings). The hand models are tied to the code on every run.",
-    note="Trusted: Coq kernel; the three hand models (tied by differential testing on every run); pycparser; gcc + "
-         "AddressSanitizer; glibc strtoull. Label: partial (parameter lists with parameters or '...', argument decay, "
-         "declarator names and the Python front end are covered by correspondence only).",
+         "through the context (typedef names, standard *_t names, struct/union/enum tags), in any context whose tables "
+         "are sorted (wf_genv); for ALL strings, contexts and buffer sizes: no access to the output buffer outside its "
+         "written part (C07_no_fault), the result index is inside it (C07_result_index_in_range), the scanning "
+         "primitives stop at the terminator, and the model's fuel is never exhausted (C07_fuel_suffices: "
+         "parse_c_type ... <> Err E_out_of_fuel, by the measure 4*remaining characters + b per function; "
+         "C07_token_nonempty, C07_parse_from_fuel, C07_parse_complete_fuel, C07_parse_sequel_fuel are the per-function "
+         "statements; C07_nested_fuel_suffices is the nested parse of a commontypes.c replacement on its own - that "
+         "its call site has that much fuel is NOT proved, the model masks it as E_internal like the C code and the "
+         "correspondence on FILE/bool strings covers it). Regenerated on every run (C07/Gen.v, fail closed, "
+         "c07_regen.py): next_token()'s keyword switch, _CFFI_OP_*/OP_* numbers, realize_c_type()'s recursion limit, "
+         "FFI_COMPLEXITY_OUTPUT, the portable rows of commontypes.c; C07_tables_are_the_sources, "
+         "C07_keyword_lookup_is_source, C07_opcode_numbers_are_source pin the hand-written tables of Model.v/Realize.v "
+         "to them by computation (the PRIM_* numbers, the standard-typename table and py_prims are pinned to the "
+         "regenerated C06/Gen.v by C06_C07_prim_constants, C06_C07_std_typename_same, C06_C07_py_prims in "
+         "coq/C06/Props.v). The full statement is kept visible and refuted by eight _refuted witnesses (known "
+         "findings). The hand models of the parsing functions themselves are tied to the code by correspondence only.",
+    note="Trusted: Coq kernel; the three hand models (control structure tied by differential testing on every run; "
+         "their constant tables regenerated/pinned); pycparser; gcc + AddressSanitizer; glibc strtoull. Label: partial "
+         "(parameter lists with parameters or '...', argument decay, declarator names, error classes/positions and the "
+         "Python front end (pycparser + _preprocess) are covered by correspondence only; ctype object identity is "
+         "checked by the harness only).",
     design_ref="DESIGN.md §4 C07")
